@@ -142,3 +142,7 @@ def gen(rng, tier, mult=1):
     for i in range(n):
         yield T.gen_transfer_case(rng, script_style=["abort", "silent", "clean", "faulty", "edge", "random"][i % 6],
                                   simple_cfg=True, fault=(i % 3 == 0), bs_choices=[8, 16, 512])
+
+
+import http_common  # noqa: E402
+http_common.plug_http(globals(), ID)
